@@ -140,3 +140,4 @@ def shape(line):
 
 def nontrivial(line, out):
     return True
+from ties import of as _tie_of; TIE_LAYOUTS, TIE_PINS, TIE_ENUMS = _tie_of("C02")   # static-tie lemmas (coq/Gen/Tie) this property depends on
